@@ -8,7 +8,7 @@ import numpy as np
 import vlib
 
 EPS = np.finfo(float).eps
-XS = [0.0, -37.5, np.array([1e-3, 1.0, 100.0]), np.array([[0.5, -2.0], [1e4, 3.0]]), 100.0, np.array([7.0, -0.25, 3e3])]
+XS = [0.0, -37.5, np.array([1e-3, 1.0, 100.0]), np.array([[0.5, -2.0], [1e4, 3.0]]), 100.0, np.array([7.0, -0.25, 3e3]), 3, np.array([0, 4, -7])]     # the last two: integer-typed x
 
 
 def q2f(q):
